@@ -28,6 +28,8 @@ pub struct Process {
     timestamp: i64,
     env: ShareLock<Vars>,
     runtime: Arc<Runtime>,
+    // serializes the client actions on this process
+    sync: Arc<std::sync::Mutex<()>>,
 }
 
 impl fmt::Debug for Process {
@@ -64,6 +66,7 @@ impl Process {
             env: Arc::new(RwLock::new(Vars::new())),
             err: Arc::new(RwLock::new(None)),
             runtime: rt.clone(),
+            sync: Arc::new(std::sync::Mutex::new(())),
         })
     }
 
@@ -275,6 +278,8 @@ impl Process {
 
     #[instrument()]
     pub fn do_action(self: &Arc<Self>, action: &Action) -> Result<()> {
+        // the state check and the state write of an action must not interleave with another client's
+        let _lock = self.sync.lock().unwrap_or_else(|e| e.into_inner());
         let mut action = action.clone();
         let task = self.task(&action.tid).ok_or(ActError::Action(format!(
             "cannot find task by '{}' tasks={:?}",
